@@ -83,6 +83,12 @@ func resolve(name string, a []string) []string {
 			return []string{"none"}
 		}
 		return []string{strconv.FormatInt(n, 10)}
+	case "uint":
+		n, err := strconv.ParseUint(u[0], 10, 64)
+		if err != nil {
+			return []string{"none"}
+		}
+		return []string{strconv.FormatUint(n, 10)}
 	case "mkgeo":
 		kind, _ := strconv.Atoi(a[0])
 		args := make([]string, len(a)-1)
@@ -441,10 +447,30 @@ func genCmd(rng *rand.Rand) []string {
 	case x < 93:
 		return []string{"KEYS", pick(rng, append(patterns, "fl*", "k?", "z*e"))}
 	case x < 97:
-		if rng.Intn(2) == 0 {
-			return []string{"SCAN", k, "IDS"}
+		args := []string{"SCAN", k}
+		for n := rng.Intn(4); n > 0; n-- {
+			switch rng.Intn(7) {
+			case 0:
+				args = append(args, "CURSOR", pick(rng, []string{"0", "1", "2", "3", "5", "18446744073709551615", "x"}))
+			case 1:
+				args = append(args, "LIMIT", pick(rng, []string{"1", "2", "3", "100", "0", "-1"}))
+			case 2, 3:
+				args = append(args, "MATCH", pick(rng, patterns))
+			case 4:
+				args = append(args, pick(rng, []string{"ASC", "DESC"}))
+			case 5:
+				args = append(args, "NOFIELDS")
+			}
 		}
-		return []string{"SCAN", k}
+		switch rng.Intn(5) {
+		case 0:
+			args = append(args, "IDS")
+		case 1:
+			args = append(args, "COUNT")
+		case 2:
+			args = append(args, "OBJECTS")
+		}
+		return args
 	default: // JGET
 		args := []string{"JGET", k, id}
 		if rng.Intn(4) > 0 {
@@ -780,6 +806,175 @@ func headCheck(r *hx.Result, m *mdl, rng *rand.Rand, n int) {
 	}
 }
 
+
+// ---------- exhaustive exploration of the reachable state graph of a small alphabet ----------
+
+// dumpFast is dump() with pipelined requests (3 round trips).
+func (t *tester) dumpFast() string {
+	keys := t.c.MustDo("KEYS", "*")
+	for _, k := range keys.Array {
+		t.c.Send("SCAN", k.Str, "LIMIT", "100000", "IDS")
+	}
+	type kid struct{ k, id string }
+	var all []kid
+	var counts []string
+	for _, k := range keys.Array {
+		ids, err := t.c.Read()
+		if err != nil {
+			panic(err)
+		}
+		n := 0
+		if len(ids.Array) == 2 {
+			for _, id := range ids.Array[1].Array {
+				all = append(all, kid{k.Str, id.Str})
+				n++
+			}
+		}
+		counts = append(counts, model.H(k.Str)+":"+strconv.Itoa(n))
+	}
+	for _, x := range all {
+		t.c.Send("GET", x.k, x.id, "WITHFIELDS", "OBJECT")
+		t.c.Send("TTL", x.k, x.id)
+	}
+	var recs []string
+	for _, x := range all {
+		g, err := t.c.Read()
+		if err != nil {
+			panic(err)
+		}
+		ttl, err := t.c.Read()
+		if err != nil {
+			panic(err)
+		}
+		obj, fields := "?", ""
+		if len(g.Array) >= 1 {
+			obj = model.H(g.Array[0].Str)
+		}
+		if len(g.Array) >= 2 {
+			fa := g.Array[1].Array
+			var fs []string
+			for i := 0; i+1 < len(fa); i += 2 {
+				fs = append(fs, model.H(fa[i].Str)+":"+model.H(fa[i+1].Str))
+			}
+			fields = strings.Join(fs, ",")
+		}
+		d := "1"
+		if ttl.Int == -1 {
+			d = "0"
+		} else if ttl.Int < 0 {
+			d = "gone"
+		}
+		recs = append(recs, fmt.Sprintf("k=%s i=%s o=%s f=%s d=%s", model.H(x.k), model.H(x.id), obj, fields, d))
+	}
+	return strings.Join(recs, ";") + "|" + strings.Join(counts, ",")
+}
+
+func exhaustiveAlphabet() [][]string {
+	var cmds [][]string
+	ks, ids := []string{"k1", "k2"}, []string{"a", "b"}
+	for _, k := range ks {
+		for _, id := range ids {
+			cmds = append(cmds,
+				[]string{"SET", k, id, "POINT", "1", "1"},
+				[]string{"SET", k, id, "FIELD", "f", "5", "STRING", "s"},
+				[]string{"SET", k, id, "EX", "100", "NX", "POINT", "2", "2"},
+				[]string{"SET", k, id, "XX", "OBJECT", `{"type":"GeometryCollection","geometries":[]}`},
+				[]string{"FSET", k, id, "f", "7"},
+				[]string{"DEL", k, id},
+				[]string{"EXPIRE", k, id, "100"},
+				[]string{"PERSIST", k, id})
+		}
+		cmds = append(cmds, []string{"PDEL", k, "a*"}, []string{"DROP", k})
+	}
+	cmds = append(cmds, []string{"RENAME", "k1", "k2"}, []string{"RENAME", "k2", "k1"}, []string{"RENAMENX", "k1", "k2"}, []string{"FLUSHDB"})
+	return cmds
+}
+
+// exhaustive: breadth-first over the distinct visible states reachable with the alphabet; every
+// (state, command) transition up to the depth bound is executed on the real server and on the
+// models (state re-established by replaying a shortest path from the empty database), comparing
+// the reply and the full dump after it.
+func (t *tester) exhaustive(m *mdl, depth int) {
+	r := t.r
+	alpha := exhaustiveAlphabet()
+	type node struct{ path [][]string }
+	frontier := []node{{nil}}
+	seen := map[string]bool{"|": true}
+	perDepth := []int{1}
+	transitions, edgesChanging := 0, 0
+	apply := func(path [][]string, cmd []string) (string, mres, string, string, bool) {
+		t.c.Send("FLUSHDB")
+		for _, c := range path {
+			t.c.Send(c...)
+		}
+		t.c.Send(cmd...)
+		var last srv.Value
+		for i := 0; i < len(path)+2; i++ {
+			v, err := t.c.Read()
+			if err != nil {
+				return "", mres{}, "", "", false
+			}
+			last = v
+		}
+		m.ask("reset")
+		now := time.Now().UnixNano()
+		for _, c := range path {
+			m.exec(now, c)
+		}
+		mr := m.exec(now, cmd)
+		return canon(last), mr, t.dumpFast(), m.ask("dump"), true
+	}
+	for d := 0; d < depth; d++ {
+		var next []node
+		for _, nd := range frontier {
+			for _, cmd := range alpha {
+				transitions++
+				got, mr, sd, md, ok := apply(nd.path, cmd)
+				prog := append(append([][]string{}, nd.path...), cmd)
+				cs := map[string]interface{}{"program": quoteProg(prog), "label": "exhaustive"}
+				if !ok {
+					r.Fail(hx.Failure{Kind: "oracle", Signature: "server-crash", What: "the server stopped answering during the exhaustive exploration", Case: cs})
+					t.stop()
+					t.start()
+					continue
+				}
+				lc := strings.ToLower(cmd[0])
+				if got != mr.spec {
+					r.Fail(hx.Failure{Kind: "oracle", Signature: "spec-reply-" + lc, What: "exhaustive exploration: reply is not the reply of the plain-map specification", Case: cs, Impl: pretty(got), Model: pretty(mr.spec)})
+				}
+				if got != mr.impl {
+					r.Fail(hx.Failure{Kind: "correspondence", Signature: "reply-" + lc, What: "exhaustive exploration: reply differs from Model.Keyspace.exec", Case: cs, Impl: pretty(got), Model: pretty(mr.impl)})
+				}
+				if sd != md {
+					r.Fail(hx.Failure{Kind: "correspondence", Signature: "dump", What: "exhaustive exploration: full dump differs from the handler model state", Case: cs, Impl: sd, Model: md})
+				}
+				if !mr.absEq {
+					r.Fail(hx.Failure{Kind: "correspondence", Signature: "abs-" + lc, What: "exhaustive exploration: abs(handler-model state) differs from the specification state", Case: cs})
+				}
+				if mr.logged {
+					edgesChanging++
+				}
+				r.Count("x:"+strings.Join(quoteProg(prog), ";"), mr.logged)
+				if !seen[md] {
+					seen[md] = true
+					next = append(next, node{prog})
+				}
+				if len(r.Failures) > 20 {
+					return
+				}
+			}
+		}
+		perDepth = append(perDepth, len(next))
+		frontier = next
+	}
+	r.Dist("exhaustive-transitions")
+	r.Extra["exhaustive"] = map[string]interface{}{
+		"alphabet_commands": len(alpha), "depth": depth, "transitions_checked": transitions,
+		"transitions_logged": edgesChanging, "distinct_states": len(seen), "new_states_per_depth": perDepth,
+		"note": "every (state, command) pair with the state at distance < depth from the empty database; states identified by the canonical dump",
+	}
+}
+
 // ---------- main ----------
 
 func runC01(r *hx.Result, cfg hx.Config) {
@@ -832,6 +1027,19 @@ func runC01(r *hx.Result, cfg hx.Config) {
 			S("SET", "late", "l3", "OBJECT", `{"type":"MultiPoint","coordinates":[]}`), S("JSET", "late", "l3", "properties.p", "1"), S("EXPIRE", "late", "l3", "100"), S("PERSIST", "late", "l3"), S("RENAME", "late", "later"), S("PDEL", "later", "*"), S("KEYS", "*"), S("EXISTS", "later", "l3")},
 		{S("SET", "f", "a", "RETURN", "x", "WITHFIELDS", "POINT", "1", "1"), S("SET", "f", "a", "RETURN", "HASH"), S("SET", "f", "a", "RETURN", "HASH", "0", "POINT", "1", "1"), S("SET", "f", "a", "POINT", "1", "1", "RETURN"), S("SET", "f", "a", "POINT", "1", "1", "RETURN", "POINT", "BOUNDS", "HASH", "3", "WITHFIELDS"), S("FSET", "f", "a", "RETURN", "RETURN", "p", "1")},
 	}
+	{ // a collection larger than the default page (100): default limit, cursors, DESC, MATCH ranges, COUNT
+		var big [][]string
+		for i := 0; i < 130; i++ {
+			big = append(big, S("SET", "big", fmt.Sprintf("id%03d", (i*37)%130), "FIELD", "n", strconv.Itoa(i%3), "POINT", "1", strconv.Itoa(i%90)))
+		}
+		big = append(big, S("SCAN", "big", "IDS"), S("SCAN", "big", "CURSOR", "100", "IDS"), S("SCAN", "big", "CURSOR", "100"), S("SCAN", "big", "LIMIT", "7", "CURSOR", "125", "IDS"),
+			S("SCAN", "big", "DESC", "LIMIT", "5", "IDS"), S("SCAN", "big", "DESC", "CURSOR", "128", "IDS"), S("SCAN", "big", "MATCH", "id01*", "IDS"), S("SCAN", "big", "MATCH", "id01*", "LIMIT", "3", "IDS"),
+			S("SCAN", "big", "MATCH", "id01*", "CURSOR", "3", "LIMIT", "3", "IDS"), S("SCAN", "big", "MATCH", "id01*", "MATCH", "id12*", "DESC", "IDS"), S("SCAN", "big", "MATCH", "*5", "LIMIT", "4", "NOFIELDS"),
+			S("SCAN", "big", "COUNT"), S("SCAN", "big", "CURSOR", "120", "COUNT"), S("SCAN", "big", "CURSOR", "200", "COUNT"), S("SCAN", "big", "MATCH", "id0*", "COUNT"), S("SCAN", "big", "MATCH", "id0*", "LIMIT", "20", "COUNT"),
+			S("SCAN", "big", "LIMIT", "2", "LIMIT", "3"), S("SCAN", "big", "ASC", "DESC"), S("SCAN", "big", "MATCH", ""), S("SCAN", "big", "LIMIT", "0"), S("SCAN", "big", "CURSOR", "-1"), S("SCAN", "big", "FOO"), S("SCAN", "big", "IDS", "extra"),
+			S("SCAN", "nokey", "COUNT"), S("SCAN", "nokey", "LIMIT", "5"), S("PDEL", "big", "id1*"), S("SCAN", "big", "COUNT"), S("SCAN", "big", "CURSOR", "50", "IDS"))
+		corpus = append(corpus, big)
+	}
 	for i, p := range corpus {
 		nt := t.runProgram(m, p, fmt.Sprintf("corpus-%d", i))
 		r.Count("corpus:"+strings.Join(quoteProg(p), ";"), nt)
@@ -873,6 +1081,12 @@ func runC01(r *hx.Result, cfg hx.Config) {
 		nt := t.runProgram(m, prog, fmt.Sprintf("malformed-%d", i))
 		r.Count("m:"+strings.Join(quoteProg(prog), ";"), nt)
 	}
+
+	xdepth := 4
+	if cfg.Tier == "thorough" {
+		xdepth = 5
+	}
+	t.exhaustive(m, xdepth)
 
 	fieldListCheck(r, m, rng, nfl)
 	headCheck(r, m, rng, nhead)
